@@ -16,9 +16,11 @@ PROPS = {
     "C11": one(
         120_000, 12_000_000,
         anchor_files=["io/StringScanner.go"],
-        rule="A case is one history on one StringScanner: content of 0-12 characters over {a, b, LF, CR, e-acute, U+1F600} "
-             "and 1-40 operations from read/unread/unreadmany/peek/peekline/peekcol/line/col/reset generated in biased phases. "
-             "Non-trivial: at least 3 operations of which at least one moves the cursor. Distinct: hash of (content, operation list).",
+        rule="A case is one history on one StringScanner: content over {a, b, LF, CR, e-acute, U+1F600, U+010A, U+010D, U+1F60A, U+FF0D (low byte like a line break), U+2028, U+0085, VT, U+0100} "
+             "of 0-12 characters (x size class; rare shapes: lengths around 256/1024/2048 dense in line breaks, one line of 65535-70000 columns, raw bytes that are not "
+             "well-formed UTF-8) and 1-40 operations from read/unread/unreadmany/peek/peekline/peekcol/line/col/reset generated in biased phases "
+             "(also reads of n characters in one step); a second live scanner is used in between. Observation per run after every operation, every "
+             "k-th, or only at the end. Non-trivial: at least 3 operations of which at least one moves the cursor. Distinct: hash of (content, operation list).",
         state_measure="distinct (content class over {.,L,C}, cursor k, line, column) tuples observed after an operation",
         probes=["unread_at_start", "unread_from_end_slot", "unread_cr_before_lf", "read_end_slot", "read_past_end",
                 "unreadmany_beyond_start"],
@@ -50,10 +52,12 @@ PROPS = {
     "C16": one(
         60_000, 20_000_000,
         anchor_files=["tokenizers/generic/SymbolNode.go", "tokenizers/generic/SymbolRootNode.go", "tokenizers/generic/GenericSymbolState.go"],
-        rule="A case is one history of 2-24 interleaved Add(symbol, own type) and read operations on one SymbolRootNode or GenericSymbolState: "
-             "symbols of length 1-3 over {<,=,>,!,lambda} biased to share prefixes, inputs that are a registered symbol, a symbol cut short, "
-             "a symbol plus a tail, or random; after every Add all symbols registered so far are read back. Non-trivial: at least 3 operations, "
-             "at least one Add and two reads. Distinct: hash of (target, operation list).",
+        rule="A case is one history of 2-24 (x size class) interleaved Add(symbol, own type) and read operations on one SymbolRootNode or GenericSymbolState: "
+             "symbols of length 1-3 (up to 12 in large runs) over {<,=,>,!,lambda} biased to share prefixes, 4% with bytes that are not well-formed UTF-8; "
+             "inputs that are a registered symbol, a symbol cut short, a symbol plus a tail, or random, 6% of them with one character's bit 8 / 16 / 17 flipped; "
+             "a third of the runs pass a tokenizer that is busy with a stream of its own as second argument; after an Add (per run: every one, every k-th, "
+             "only at the end) all symbols registered so far are read back. Non-trivial: at least 3 operations, at least one Add and two reads. "
+             "Distinct: hash of (target, operation list).",
         state_measure="distinct (number of registered symbols, symbol read, previously read symbol) triples",
         probes=["input_ends_inside_symbol", "unregistered_proper_prefix", "symbols_read_in_sequence"],
         real=["generic.SymbolRootNode", "generic.SymbolNode", "generic.GenericSymbolState", "io.StringScanner"],
@@ -65,12 +69,13 @@ PROPS = {
     "C20": one(
         60_000, 30_000_000,
         anchor_files=["variants/Variant.go"],
-        rule="A case is one history of 2-24 operations over 4 variant handles and 2 caller-owned slices: construct from each host type "
-             "(int, int32, uint, uint32, int64, float32, float64, bool, string, time.Time, time.Duration, []*Variant, *Variant, nil, struct, []int, map), "
-             "typed setters, SetAsObject, SetAsArray followed by mutation of the caller's slice, SetByIndex within and past the end, SetLength, "
-             "Assign, Clone, Clear, Equals in both directions; after every operation every handle is read back (Type, typed accessor, Length, "
-             "GetByIndex, IsNull). Non-trivial: at least 3 operations including an in-place mutation (SetByIndex, SetLength or a change of a "
-             "caller's slice). Distinct: hash of the operation list.",
+        rule="A case is one history of 2-24 (x size class) operations over 4 variant handles and 2 caller-owned slices (with and without spare capacity): construct "
+             "from each host type (int, int32, uint, uint32, int64, float32, float64, bool, string, time.Time, time.Duration, []*Variant, *Variant, Variant by value, "
+             "nil, struct, []int, map, fixed-size array, pointer, function, ...), typed setters, SetAsObject, SetAsArray followed by mutation of or appends to the "
+             "caller's slice, SetByIndex within and past the end, SetLength, Assign, Clone, Clear, in-place change of an element object, one element object at two "
+             "positions, nested rows (one row twice, clone, near-copy), nesting up to 200 deep, Equals in both directions; observation per run after every "
+             "operation, every k-th, or only at the end: every handle is read back (Type, typed accessor, Length, GetByIndex, IsNull). Non-trivial: at least "
+             "3 operations including an in-place mutation. Distinct: hash of the operation list.",
         state_measure="distinct vectors (type, array length, number of alias edges) over the 4 handles",
         probes=["caller_slice_mutated", "setbyindex_past_end", "clone_of_array", "equals_on_arrays", "mutate_with_alias_edges", "element_mutated_in_place", "nested_deeper_than_60", "nil_element_written", "caller_slice_appended", "element_object_twice_in_one_array"] + ["host_" + h for h in
                ["int", "int32", "uint", "uint32", "int64", "float32", "float64", "bool", "string", "time", "duration", "array", "variant", "nil", "struct", "slice", "map", "goarray", "structslice", "ptr", "ifacestruct", "func", "variantvalue"]],
@@ -79,7 +84,8 @@ PROPS = {
         assumptions=["value model with explicit aliasing: only clones and list setters must be independent; Assign and construction from another "
                      "variant may share a list (not asserted either way); a mutation of the original is not asserted to leave the clone alone, "
                      "only the direction the property states",
-                     "array elements are always fresh variants, never other handles",
+                     "element objects are tracked by identity; a slot whose object was changed in place through another holder is not asserted "
+                     "(a shallow and a deep copy are both allowed there)",
                      "fault kinds: none exist at this surface"],
     ),
     "C19": dict(
@@ -139,12 +145,14 @@ PROPS = {
         60_000, 10_000_000,
         anchor_files=["calculator/variables/VariableCollection.go", "calculator/functions/FunctionCollection.go", "calculator/ExpressionCalculator.go",
                       "mustache/MustacheTemplate.go", "calculator/parsers/ExpressionParser.go", "mustache/parsers/MustacheParser.go"],
-        rule="A case is one history: (a) 3-30 operations (Add, Get, GetAll + mutation of the returned slice, FindIndexByName, FindByName, Locate, Remove, "
-             "RemoveByName, Clear, ClearValues, SetValue; names that collide case-insensitively) on a VariableCollection or FunctionCollection against an "
+        rule="A case is one history: (a) 3-30 (x size class) operations (Add, Get, GetAll + mutation of the returned slice, FindIndexByName, FindByName, Locate, Remove, "
+             "RemoveByName, Clear, ClearValues, SetValue, change of a value object in place; names that collide case-insensitively, among them case pairs whose "
+             "two cases differ in UTF-8 length and names containing format verbs) on a VariableCollection or FunctionCollection against an "
              "ordered-list model, or (b) 2-12 operations on one calculator / template: SetExpression / SetTemplate with generated text whose identifier "
              "roles the generator knows (variables, quoted identifiers, functions, keywords in random case, string constants, comments, section words), "
-             "SetAutoVariables, edits and removals in the default collection, Evaluate, EvaluateUsingVariables with one name left out. Non-trivial: at "
-             "least 3 operations with at least one state change. Distinct: hash of (scenario, operation list).",
+             "SetAutoVariables, edits and removals in the default collection, Evaluate, EvaluateUsingVariables with one name left out. Observation per run "
+             "after every operation, every k-th, or only at the end. Non-trivial: at least 3 operations with at least one state change. "
+             "Distinct: hash of (scenario, operation list).",
         state_measure="distinct (scenario, size of the model collection, auto-variables flag, operation) tuples",
         fault_kinds=[],
         probes=["getall_mutated", "case_insensitive_hit", "first_added_wins_checked", "auto_variables_applied", "default_variable_removed",
